@@ -28,7 +28,14 @@ def mk(inp, text=None):
     # `bare`: a chord written without a tonality (the library then means C major); the chord octave still counts
     ton = None if inp.get('bare') else Tonality(inp['deg'], inp['mode'], inp['toct'])
     base = Chord(inp['elem'], tonality=ton, octave=inp['coct'])
-    return base[inp['ext'] if text is None else text]
+    t = inp['ext'] if text is None else text
+    if inp.get('via') == 'ctor':
+        # the other public way to write a figure: the constructor (what sequence / analysis code uses).  It does not
+        # validate the figure as chord[...] does, so a figure chord[...] rejects is rejected here too
+        # (seed C02-6: the constructor stopped normalising the extension)
+        base[t]
+        return Chord(inp['elem'], extension=t, tonality=ton, octave=inp['coct'])
+    return base[t]
 
 
 def chord_inp(c, text):
@@ -54,6 +61,8 @@ def check_order(inp):
         b = (c2.extension, list(map(int, c2.chord_pitches)), list(map(int, c2.chord_extension_pitches)))
         if a != b:
             return {'observed': {'written': t2, 'got': b}, 'expected': a}
+        if not (c == c2) or hash(c) != hash(c2) or str(c) != str(c2):
+            return {'observed': {'written': t2, 'same chord': (c == c2, hash(c) == hash(c2), str(c2))}, 'expected': str(c)}
     return None
 
 
@@ -185,6 +194,8 @@ def oracle(ctx):
                          'mode': rng.choice(gen.MODES), 'toct': rng.randint(-1, 1), 'coct': rng.randint(-1, 1)})
     for c, text in gen_chords(ctx, ctx.n(500, 20000)):
         todo.append(chord_inp(c, text))
+        if rng.random() < 0.35:
+            todo.append({**chord_inp(c, text), 'via': 'ctor'})      # the same figure written through the constructor
     # chords written without a tonality, at several chord octaves (seed C02-4)
     for fig in gen.FIGS:
         for _ in range(2):
